@@ -241,11 +241,20 @@ SHAPES = [(1, 1, 1), (1, 1, 2), (1, 2, 1), (1, 3, 5), (2, 4, 3), (1, 17, 23), (2
           (7,), (5, 4), (), (2, 1, 3, 2), (0,), (1, 0, 4), (3, 0)]
 
 
-def make_ubis(r, n, cell, strain=1e-3):
+def make_ubis(r, n, cell, strain=1e-3, zero00=0.0):
+    """zero00: fraction of voxels whose a axis lies exactly in the lab y-z plane, so that UBI[0,0] is exactly 0.0 (a
+    perfectly ordinary orientation; an element of a valid UBI being zero says nothing about the voxel being empty)"""
     B0 = xtal.Bmat(cell)
     ubis = np.empty((n, 3, 3))
     for i in range(n):
         ubis[i] = np.linalg.inv(xtal.random_rotation(r, "haar") @ xtal.random_sym_stretch(r, strain) @ B0)
+        if zero00 and r.random() < zero00:
+            a = ubis[i, 0]
+            phi = np.arctan2(a[0], a[1])                  # rotate about lab z so that a_x -> 0
+            R = np.array([[np.cos(phi), -np.sin(phi), 0], [np.sin(phi), np.cos(phi), 0], [0, 0, 1.0]])
+            ubis[i] = ubis[i] @ R.T
+            assert abs(ubis[i, 0, 0]) < 1e-12 * np.abs(ubis[i]).max()
+            ubis[i, 0, 0] = 0.0
     return ubis
 
 
@@ -267,7 +276,9 @@ def one_map(run, seed, idx, mods):
     n = int(np.prod(shp)) if nl else 1
     kind = xtal.KINDS[int(r.integers(7))]
     cell0 = xtal.random_cell(r, kind)
-    ubis = make_ubis(r, n, cell0)
+    z00 = (0.0, 0.0, 0.3, 1.0)[idx % 4]
+    ubis = make_ubis(r, n, cell0, zero00=z00)
+    run.count("map_voxels_with_exact_zero_UBI00", int((ubis[:, 0, 0] == 0).sum()))
     pm = float(r.choice([0.0, 0.3, 0.3, 0.3, 0.7, 1.0]))
     mask = r.random(n) < pm
     desc = dict(index=idx, shape=shp, kind=kind, n_nan=int(mask.sum()))
